@@ -32,11 +32,11 @@ TEXT = {
          "engine F: exhaustive enumeration of instance x fragment x field-edit tuples"),
  "C13": ("Full cross products of {valid, NULL, boundary, out-of-range} per argument for every entry point against four live instances and dead descriptors (a fragment length below 80 is given with buffers that really are that short, ending at a guard page), and ~215k | 1.0M configurations: backend id x k x m (every value around the accepted region plus extreme values such as INT_MAX, INT_MIN, 2^30) x hd x word size, each accepted one driven through a full cycle; ledger compared around every call.",
          "engine A: exhaustive enumeration of argument tuples and configurations"),
- "C14": ("All 518 | 3,110 abstract registry states with <=3|4 live instances over six configurations incl. two flat-XOR shapes (with and without the descriptor counter preset to wrap) x every operation (6 creates, 5 failing creates of three kinds, destroy, use, 14 error exits), each transition a real API call in a forked child followed by a full teardown, with a set model, round trips of every live instance, the loaded-library invariant and a differential observation oracle; plus all operation sequences over 10 letters to depth 5|6 (and over 6 letters to depth 8) unmerged, and all 522k | 10M create/destroy/counter-preset sequences to depth 9|11 around the descriptor wrap.",
+ "C14": ("All 518 | 3,110 abstract registry states with <=3|4 live instances over six configurations incl. two flat-XOR shapes (with and without the descriptor counter preset to wrap) x every operation (6 creates, 5 failing creates of three kinds, destroy, use incl. the availability query, 15 error exits), each transition a real API call in a forked child followed by a full teardown, with a set model, round trips of every live instance, the loaded-library invariant and a differential observation oracle; plus all operation sequences over 10 letters to depth 5|6 (and over 6 letters to depth 8) unmerged, and all 522k | 10M create/destroy/counter-preset sequences to depth 9|11 around the descriptor wrap.",
          "engine H: explicit-state search, transitions are real API calls"),
  "C15": ("Guard-page placement of every input over the C01/C03 space (n<=8|10), incl. opposite-endian twins and truly short buffers for a short fragment length, history independence of outputs in every registry state, thread independence of outputs in every schedule, and no state shared between data-plane calls of two threads (ThreadSanitizer on every schedule of drivers whose threads take read locks only).",
          "engines S+H+T: exhaustive enumeration with guard pages, state search, schedule enumeration"),
- "C16": ("Exact ledger of the library's allocations (link-time wrap) plus AddressSanitizer over every abstract registry state x every operation including 14 error exits per instance (incl. rejected calls handed stale output variables, and bad headers met after scratch buffers were allocated), over all operation sequences to depth 4|6 (8 on six letters), and over every erasure set up to one beyond tolerance of all 1,526 shapes with the ledger compared around each single decode+cleanup+reconstruct case.",
+ "C16": ("Exact ledger of the library's allocations (link-time wrap) plus AddressSanitizer over every abstract registry state x every operation including 15 error exits per instance (incl. rejected calls handed stale output variables, bad headers met after scratch buffers were allocated, a caller-damaged magic before the cleanup call), over all operation sequences to depth 4|6 (8 on six letters), and over every erasure set up to one beyond tolerance of all 1,526 shapes with the ledger compared around each single decode+cleanup+reconstruct case, and around every fragments_needed request of every flat-XOR table.",
          "engine H + S: explicit-state search with an exact allocation ledger"),
  "C17": ("Every backend call of a scripted workload made to fail: 0 faults, every single position, every pair, every triple (k+m<=6|16), for every (k,m) with k+m<=10|16 of the three matrix back ends plus flat-XOR and null representatives, 11 configurations whose init the back ends refuse themselves, and every flat-XOR erasure set of hd and hd+1 fragments (the decoder's own failures); the failed call must return <0 with the ledger untouched and later outputs must equal the fault-free run.",
          "engine X: deviation-bounded exhaustive fault enumeration"),
@@ -88,7 +88,7 @@ def main():
             {"name": "T", "path": "harness/engine_t.c", "serves_properties": ["C18", "C15"], "kind_free_text": "preemption-bounded schedule explorer under a serialising scheduler, ASan and TSan monitors"},
         ],
         "checks": checks,
-        "notes": "Known findings: KNOWN_FINDINGS.txt (all 11 defects found so far were repaired by fix: commits in /repo; no open findings). Seeded breaking changes (119 kept, 117 caught, 2 outside every property's quantifier) and which check catches each: seeded/RESULTS.md and DESIGN.md section 8. harness/engine_m.c is an unregistered probe (allocation failure is outside every property's quantifier, DESIGN.md section 9).",
+        "notes": "Known findings: KNOWN_FINDINGS.txt (all 11 defects found so far were repaired by fix: commits in /repo; no open findings). Seeded breaking changes (157 kept, 153 caught, 3 outside every listed property) and which check catches each: seeded/RESULTS.md and DESIGN.md section 8. harness/engine_m.c is an unregistered probe (allocation failure is outside every property's quantifier, DESIGN.md section 9).",
         "not_applicable": na,
     }
     json.dump(man, open(os.path.join(VERIF, "MANIFEST.json"), "w"), indent=1)
